@@ -256,7 +256,7 @@ impl Transport for HypPciTransport {
         assert_eq!(offset % align_of::<T>(), 0);
 
         let config_space = self.config_space.ok_or(Error::ConfigSpaceMissing)?;
-        if config_space.size < offset + size_of::<T>() {
+        if offset > config_space.size || config_space.size - offset < size_of::<T>() {
             Err(Error::ConfigSpaceTooSmall)
         } else {
             Ok(config_space.read(offset))
@@ -276,7 +276,7 @@ impl Transport for HypPciTransport {
         assert_eq!(offset % align_of::<T>(), 0);
 
         let config_space = self.config_space.ok_or(Error::ConfigSpaceMissing)?;
-        if config_space.size < offset + size_of::<T>() {
+        if offset > config_space.size || config_space.size - offset < size_of::<T>() {
             Err(Error::ConfigSpaceTooSmall)
         } else {
             config_space.write(offset, value);
